@@ -31,7 +31,7 @@ def run_scenario(args):
     entry = pkgpath + "." + sc["entry"]
     overrides = {"time.After": pkgpath + ".verifTimeAfter"}
     for k, v in sc.get("overrides", {}).items():
-        overrides[k] = v if "." in v else pkgpath + "." + v
+        overrides[k] = v if ("." in v or v.startswith("$")) else pkgpath + "." + v
     res = dict(name=sc["name"], entry=sc["entry"], K=sc.get("K", 60), obligations=[], reach={}, status="ok",
                notes=[], functions=[], stats={}, bounds=sc.get("bounds", ""))
     r = None
